@@ -6,6 +6,11 @@ promises (derived from the TerminationCondition classes, see `silent_claims`).  
 the call must be silent and the point lies within residual-bound/sigma of the independent reference solution.
 Task "allmethods": one contractive problem, every built-in method of the chosen API with the same tolerance: all silent, all
 within f_tol/sigma of the reference solution (hence pairwise within twice that).
+Task "anyproblem": the 'silent => the returned tensor itself meets the test' part (and shape/dtype) holds for ANY problem, so it is
+also exercised outside the contractive / unique-solution domain: equilibrium (all methods) on relaxation maps y - K f(y) whose Jacobian
+has spectral radius > 1 at the solution (the plain iteration diverges, the accelerated / quasi-Newton methods still converge), and
+rootfinder / minimize (and relaxed equilibrium) on non-monotone / non-convex variants where the methods converge from some starts only.
+Warned runs are only counted there; the fraction of silent returns is labelled (outcome:<kind>/<api>/<method>=silent|warned).
 """
 from __future__ import annotations
 
@@ -24,7 +29,12 @@ RULE = ("problem families with a unique known solution (tanh contraction, strong
         "equilibrium / minimize x methods newton, broyden1, broyden2, linearmixing, anderson_acc, gd, adam (lower-case names) x initial guess "
         "(zero, ball, near the solution, the solution itself) x f_tol, f_rtol, x_tol, x_rtol, maxiter (incl. far too small), line search on/off, "
         "alpha, max_rank, msize/beta/lmbda, step/gamma. Non-trivial = the user function was evaluated at least 3 times (>= 2 iterations) and y0 "
-        "differs from the reference solution by more than 1e-6; distinct by canonical case.")
+        "differs from the reference solution by more than 1e-6; distinct by canonical case. Task anyproblem (no contractivity, only shape/dtype and "
+        "silent => test met; warned runs counted): equilibrium x all five methods on relaxation maps y - K f(y) of the four families with K lmax = rho "
+        "in {1.5, 2.2, 3, 4, 5, 8} (eigenvalues of the map's Jacobian down to 1 - rho; label silent:specrad_of_map_at_returned_point), and rootfinder / "
+        "minimize / relaxed equilibrium on the non-monotone mono and non-convex quad variants (tanh / log cosh term with coefficient -L lmin, L in "
+        "{0.5, 1.5, 3, 6}; y0 zero or on a sphere of radius 0.5 / 3), f64/f32/c128, maxiter None/100/300; non-trivial there = the call was silent after "
+        ">= 3 function evaluations (labels outcome:<kind>/<api>/<method> give the silent fraction).")
 ASSUMPTIONS = [
     "silence = no ConvergenceWarning and no warning whose text says the method did not converge (gd/adam emit a plain UserWarning); a run the "
     "root solvers end with 'Jacobian inversion yielded zero vector' after the iterates overflowed counts as not converged outside the must-converge class",
@@ -43,6 +53,13 @@ ASSUMPTIONS = [
     "(also asserted for silent runs with tiny maxiter); adam has no derived accuracy bound and is left out of the cross-method comparison",
     "complex family: uniqueness only inside the unit ball; a returned point outside it is held to the residual test only",
     "reference solution: damped Newton with closed-form Jacobians in f64/c128, self-certified to 1e-12",
+    "task anyproblem: 'silent => the returned tensor meets the promised test' needs no assumption on the problem, so no convergence is demanded there; "
+    "relaxation maps g(y) = y - K f(y) keep the unique solution of f and |g(u)-u-(g(v)-v)| >= K sigma |u-v|, so the distance bound residual/(K sigma) is "
+    "kept for them; the non-monotone / non-convex variants have several roots / stationary points: no reference solution, no distance bound, and the "
+    "objective claim of the root-finding methods (phi(y) <= phi(y0) + f_tol^2/(2 sigma), strong convexity) is dropped (a root of the gradient may be a "
+    "saddle above phi(y0)); gd/adam keep phi(y) <= phi(y0) + rounding (the initial guess is among the points they choose from); on these variants "
+    "newton may stall at a non-root local minimiser of |f| where the Jacobian is exactly singular and the dense solve raises LinAlgError: counted as a "
+    "non-converged outcome (label outcome=newton_singular_jacobian_error), an exception being no silent return; on the monotone families it stays a violation",
 ]
 LEVEL_TEXT = ("Exploration with an exact re-evaluation oracle: the returned tensor is put back into the caller's function and must pass the "
               "stopping test the method documents whenever no warning was issued; independent Newton reference for the contractive class.")
@@ -67,6 +84,8 @@ def make_y0(case, prob, ystar, g):
         rows = R.to_rows(d, prob.layout, prob.n)
         rows = rows / rows.norm(dim=-1, keepdim=True).clamp_min(1e-30) * float(case["y0"]["r"])
         y0 = R.from_rows(rows, prob.layout, prob.shape).contiguous()
+    elif kind in ("near", "solution") and ystar is None:
+        raise ValueError("initial guess %r needs a reference solution" % kind)
     elif kind == "near":
         d = gen.randn(g, prob.shape, wide)
         y0 = ystar + float(case["y0"]["r"]) * d / d.norm().clamp_min(1e-30)
@@ -92,7 +111,7 @@ def in_class(prob, case, method, opts, N, res0):
     broyden1/broyden2: their default first step has length 0.5 max(|y0|,1) whatever the residual (alpha = 0.5 max(|y0|,1)/|f(y0)|,
     inherited from SciPy), which throws an already good initial guess away with an inverse-Jacobian estimate of norm alpha;
     the class therefore requires |f(y0)| >= 0.05 for them (alpha <= 10 max(|y0|,1))."""
-    if case["dtype"] == "f32" or prob.L is None or prob.L > 0.5:
+    if case["dtype"] == "f32" or prob.L is None or prob.L > 0.5 or not prob.unique or prob.K is not None:
         return False
     if method in ("gd", "adam"):
         # gd with gamma=0, step <= 1/lmax contracts by 1 - step*sigma >= ... per iteration: 5000 iterations reach any x_tol used here
@@ -124,6 +143,8 @@ def check_one(case, prob, api, method, opts, y0, ystar, labels, g):
     res0 = prob.residual_norm(y0, api)
     must = in_class(prob, case, method, opts, N, res0)
     tag = "%s/%s" % (api, method)
+    # |residual(u) - residual(v)| >= sigma |u - v| for the form handed to `api` (relaxation map: residual = K f); None: no such bound
+    sigma = None if prob.sigma is None else prob.sigma * (prob.K if (prob.K is not None and api == "equilibrium") else 1.0)
     try:
         y, rec = call_api(api, fcn, y0, params, method, user_opts)
     except XitorchRaised as e:
@@ -131,6 +152,12 @@ def check_one(case, prob, api, method, opts, y0, ystar, labels, g):
         # must-converge class that is a non-converged outcome, not a returned point
         if "Jacobian inversion yielded zero vector" in e.detail and not must:
             return None, {"evals": counter.n, "warned": True, "diverged_error": True, "must": False}
+        # non-monotone / non-convex variants only: Newton's line search on |f| can settle at a local minimiser of |f| that is not a root, where
+        # the Jacobian is singular (1-d: the inflection point of phi); the dense solve then raises.  That is Newton's documented breakdown
+        # on a problem outside its convergence domain and not a returned point; the monotone families have |J v| >= sigma |v| everywhere,
+        # there the same error stays a violation
+        if not prob.unique and method == "newton" and "LinAlgError" in e.detail and "singular" in e.detail:
+            return None, {"evals": counter.n, "warned": True, "singular_jacobian_error": True, "must": False}
         raise
     info = {"evals": counter.n, "warned": rec.warned}
 
@@ -139,13 +166,14 @@ def check_one(case, prob, api, method, opts, y0, ystar, labels, g):
     if tuple(y.shape) != tuple(y0.shape) or y.dtype != y0.dtype:
         return violation("shape_dtype", "%s: y0 %s %s -> returned %s %s" % (tag, tuple(y0.shape), y0.dtype, tuple(y.shape), y.dtype), labels), info
     y = y.detach()
+    info["y"] = y          # the returned tensor (labels of task anyproblem)
     finite = bool(torch.isfinite(torch.view_as_real(y) if y.is_complex() else y).all())
     info["must"] = must
 
     if rec.warned:
         if must:
             return violation("warned_in_contractive_class", "%s warned on a contractive problem (L=%.3g, sigma=%.3g, N=%d): %s; opts=%r" % (
-                tag, prob.L, prob.sigma, N, rec.texts[:1], user_opts), labels), info
+                tag, prob.L, sigma, N, rec.texts[:1], user_opts), labels), info
         return None, info
 
     # ---------------- silent: the returned tensor passes the promised test
@@ -170,8 +198,10 @@ def check_one(case, prob, api, method, opts, y0, ystar, labels, g):
         rounding = 64 * N * eps * mag
         claim = None
         if method in RF:
-            ft = 1e-6 if user_opts.get("f_tol") is None else user_opts["f_tol"]
-            claim = phi0 + ft * ft / (2 * prob.sigma) + rounding
+            # strong convexity only: on the non-convex family a root of the gradient may be a saddle above phi(y0)
+            if sigma is not None:
+                ft = 1e-6 if user_opts.get("f_tol") is None else user_opts["f_tol"]
+                claim = phi0 + ft * ft / (2 * sigma) + rounding
         else:
             claim = phi0 + rounding     # gd/adam: the initial guess is among the evaluated points they choose from
         if claim is not None and not phi <= claim:
@@ -179,6 +209,8 @@ def check_one(case, prob, api, method, opts, y0, ystar, labels, g):
                 tag, phi, phi0, claim - phi0, counter.n, user_opts), labels), info
 
     # ---------------- distance to the reference solution
+    if ystar is None or sigma is None:
+        return None, info
     if prob.fam == "csin":
         rows = R.to_rows(y, prob.layout, prob.n)
         if float(rows.norm(dim=-1).max()) > 1.0:
@@ -186,20 +218,20 @@ def check_one(case, prob, api, method, opts, y0, ystar, labels, g):
             return None, info
     bound = None
     if method in RF or method == "anderson_acc":
-        bound = res / prob.sigma
+        bound = res / sigma
     elif method == "gd" and opts.get("_class") and case["dtype"] != "f32":
         # the last step x_{k+1} = x_k - step grad(x_k) had |x_{k+1}-x_k| < x_tol, and |I - step H| <= 1, so |grad phi(x_{k+1})| < x_tol/step;
         # the returned point is x_{k+1} or an evaluated point with a smaller objective value:
         # phi(y) - phi* <= (x_tol/step)^2/(2 sigma) + rounding, and |y-y*|^2 <= 2 (phi(y)-phi*)/sigma
         gb = user_opts["x_tol"] / user_opts["step"]
-        bound = math.sqrt((gb / prob.sigma) ** 2 + 2 * rounding / prob.sigma)
+        bound = math.sqrt((gb / sigma) ** 2 + 2 * rounding / sigma)
     if bound is not None:
         dist = float((y.to(ystar.dtype) - ystar).norm())
         info["dist"] = dist
-        tol = bound + 1e-10 * (1 + float(ystar.norm())) + (50 * N * eps * (1 + float(ystar.norm())) / prob.sigma)
+        tol = bound + 1e-10 * (1 + float(ystar.norm())) + (50 * N * eps * (1 + float(ystar.norm())) / sigma)
         if not dist <= tol:
             return violation("far_from_unique_solution", "%s silent with residual %.3e, sigma=%.3g, but |y - y*| = %.3e > %.3e" % (
-                tag, res, prob.sigma, dist, tol), labels), info
+                tag, res, sigma, dist, tol), labels), info
     return None, info
 
 
@@ -270,6 +302,58 @@ def run_allmethods(case):
     return ok(labels, nontrivial=(evals >= 3 and far))
 
 
+def spectral_radius_of_map(prob, y):
+    """largest |eigenvalue| over the rows of the Jacobian of the equilibrium map at y (closed-form Jacobians of ref_c03; label only)"""
+    wide = torch.complex128 if prob.dtype.is_complex else torch.float64
+    saved, dt_saved = prob.P, prob.dtype
+    prob.P = {k: (v.to(wide) if isinstance(v, torch.Tensor) else v) for k, v in saved.items()}
+    prob.dtype = wide
+    try:
+        J = prob.jac_rows(R.to_rows(y.detach().to(wide), prob.layout, prob.n))
+    finally:
+        prob.P, prob.dtype = saved, dt_saved
+    K = 1.0 if prob.K is None else prob.K
+    Jg = torch.eye(prob.n, dtype=wide) - K * J
+    return float(torch.linalg.eigvals(Jg).abs().max())
+
+
+def run_any(case):
+    """problems outside the contractive / unique-solution domain: shape, dtype and 'silent => the returned tensor meets the test'
+    (plus the distance to y* where the relaxed problem still has a unique solution); warned runs are only counted"""
+    torch.manual_seed(case["seed"] & 0x7FFFFFFF)
+    g = gen.seeded(case["seed"])
+    prob = R.build_problem(case, g)
+    ystar = prob.solve_reference() if prob.unique else None
+    y0 = make_y0(case, prob, ystar, g)
+    api, method, opts = case["api"], case["method"], case["opts"]
+    kind = ("relax+nonmono" if prob.K is not None else "nonmono") if not prob.unique else "relax"
+    labels = ["api=" + api, "fam=" + case["fam"], "dtype=" + case["dtype"], "layout=%s%d" % (case["layout"], len(case["batch"])),
+              "y0=" + case["y0"]["kind"], "kind=" + kind, "method=" + method, "api_method=%s/%s" % (api, method),
+              "f_tol=%s" % opts.get("f_tol")]
+    if prob.K is not None:
+        labels.append("relax_rho=%s" % case["relax"])
+    else:
+        labels.append("nonmono_strength=%s" % case["L"])
+    for k in ("maxiter", "line_search", "msize", "beta", "lmbda"):
+        if opts.get(k) is not None:
+            labels.append("opt:%s=%s" % (k, opts[k]))
+    v, info = check_one(case, prob, api, method, opts, y0, ystar, labels, g)
+    outcome = ("diverged_with_zero_step_error" if info.get("diverged_error") else "newton_singular_jacobian_error" if info.get("singular_jacobian_error")
+               else ("warned" if info.get("warned") else "silent"))
+    labels += ["outcome=" + outcome, "outcome:%s/%s/%s=%s" % (kind, api, method, outcome)]
+    if v is not None:
+        return v
+    moved = info["evals"] >= 3
+    if outcome == "silent" and api == "equilibrium" and "res" in info:
+        # the point the method accepted: is the map a contraction there?
+        rho = spectral_radius_of_map(prob, info["y"])
+        bucket = "<1" if rho < 1 else ("1..2" if rho < 2 else ("2..4" if rho < 4 else ">=4"))
+        labels.append("silent:specrad_of_map_at_returned_point=" + bucket)
+        if rho >= 1 and moved:
+            labels.append("silent_on_noncontractive_map=" + method)
+    return ok(labels, nontrivial=(moved and outcome == "silent"))
+
+
 # ------------------------------------------------------------------------------------------ strategies
 
 FTOLS = [None, 1e-4, 1e-6, 1e-8, 1e-9, 1e-10, 1e-12]
@@ -333,6 +417,13 @@ def single_st(draw, tier="quick"):
     api = draw(st.sampled_from(["rootfinder", "rootfinder", "equilibrium", "equilibrium", "minimize", "minimize"]))
     case = draw(problem_st(tier, api))
     method = draw(st.sampled_from(METHODS[api]))
+    case["method"] = method
+    case["opts"] = draw(opts_st(case, method))
+    return case
+
+
+@st.composite
+def opts_st(draw, case, method, gd_modes=("default", "stable", "stable", "class")):
     f32 = case["dtype"] == "f32"
     opts = {}
     plain = draw(st.sampled_from([True, False, False]))      # plain = default algorithm parameters, only tolerances vary
@@ -360,7 +451,7 @@ def single_st(draw, tier="quick"):
             opts["feat_ndims"] = draw(st.sampled_from([None, None, len(case["batch"]) + 1]))
     if method == "gd":
         lmax = _lmax(case)
-        mode = draw(st.sampled_from(["default", "stable", "stable", "class"]))
+        mode = draw(st.sampled_from(list(gd_modes)))
         if mode == "default":
             opts["maxiter"] = draw(st.sampled_from([None, 0, 1, 2, 50]))
         elif mode == "stable":
@@ -378,6 +469,33 @@ def single_st(draw, tier="quick"):
         opts["step"] = draw(st.sampled_from([None, 1e-2, 1e-1]))
         opts["maxiter"] = draw(st.sampled_from([None, None, 0, 1, 2, 100, 3000]))
         opts["x_tol"] = draw(st.sampled_from([None, 1e-6]))
+    return opts
+
+
+@st.composite
+def any_st(draw, tier="quick"):
+    """outside the contractive / unique domain: (a) equilibrium on the relaxation map y - K f(y), K lmax = rho in 1.5..8 (dg/dy has eigenvalues
+    down to 1 - rho: not a contraction for rho > 2, same unique solution); (b) rootfinder / minimize (and relaxed equilibrium) on the non-monotone /
+    non-convex variants of the mono / quad families, where the methods converge from some starts only"""
+    api = draw(st.sampled_from(["equilibrium", "equilibrium", "equilibrium", "rootfinder", "minimize"]))
+    nonmono = api != "equilibrium" or draw(st.sampled_from([False, False, False, True]))
+    case = draw(problem_st(tier, api))
+    if nonmono:
+        case["fam"] = "quad" if api == "minimize" else draw(st.sampled_from(["mono", "quad"]))
+        if case["dtype"] == "c128":
+            case["dtype"] = "f64"
+        lo = draw(st.sampled_from([0.5, 1.0, 2.0]))
+        case["spread"] = [lo, lo * draw(st.sampled_from([1.0, 2.0, 5.0]))]
+        case["L"] = draw(st.sampled_from([0.5, 1.5, 3.0, 6.0]))
+        case["nonmono"] = True
+        case["y0"] = draw(st.sampled_from([{"kind": "zero", "r": 0.0}, {"kind": "ball", "r": 0.5}, {"kind": "ball", "r": 3.0}]))
+    if api == "equilibrium":
+        case["relax"] = draw(st.sampled_from([1.5, 2.2, 3.0, 4.0, 5.0, 5.0, 8.0, 8.0]))
+    method = draw(st.sampled_from(METHODS[api] + (["anderson_acc"] * 3 if api == "equilibrium" else [])))
+    opts = draw(opts_st(case, method, gd_modes=("default", "stable", "stable")))
+    if method in RF or method == "anderson_acc":
+        # the interesting outcome here is a silent return: no starved iteration budgets; a cap bounds the cost of the runs that wander
+        opts["maxiter"] = draw(st.sampled_from([None, 100, 300]))
     case["method"] = method
     case["opts"] = opts
     return case
@@ -402,4 +520,5 @@ def allmethods_st(draw, tier="quick"):
 
 def tasks(tier):
     return [Task("single", strategy=single_st(tier), run=run_single, examples={"quick": 2400, "thorough": 40000}),
-            Task("allmethods", strategy=allmethods_st(tier), run=run_allmethods, examples={"quick": 400, "thorough": 6000})]
+            Task("allmethods", strategy=allmethods_st(tier), run=run_allmethods, examples={"quick": 400, "thorough": 6000}),
+            Task("anyproblem", strategy=any_st(tier), run=run_any, examples={"quick": 800, "thorough": 10000})]
